@@ -605,6 +605,7 @@ static void tu_params_from_cfg(CMR_TU_PARAMS* params)
 /* case: cfg M     record: ncfg cfg M rc verdict(0/1, 2 = not written) hasSub [submatrix] */
 static __thread bool tu_presign = false;
 
+static __thread bool tu_echo_rest = false;
 static void do_tu(CMR* cmr)
 {
   read_cfg();
@@ -630,10 +631,19 @@ static void do_tu(CMR* cmr)
   oi(sub ? 1 : 0);
   if (sub)
     o_submat(sub);
+  if (tu_echo_rest)
+    o_rest();       /* api tu_net: the generator's witness (a digraph certificate) is echoed for the judge */
   rec_end();
   if (sub)
     CMRsubmatFree(cmr, &sub);
   CMRchrmatFree(cmr, &M);
+}
+
+static void do_tu_net(CMR* cmr)
+{
+  tu_echo_rest = true;
+  do_tu(cmr);
+  tu_echo_rest = false;
 }
 
 static void do_tu_signed(CMR* cmr)
@@ -2350,12 +2360,13 @@ static struct
   {"edgelist", do_edgelist},      /* 20 */
   {"leaf", do_leaf},              /* 21 */
   {"reprt", do_reprt},            /* 22 */
+  {"tu_net", do_tu_net},          /* 23 */
   {"tlimit", do_tlimit},
   {"hist", do_hist},
   {"threads", do_threads},
   {NULL, NULL}
 };
-#define NUM_SUB_APIS 23
+#define NUM_SUB_APIS 24
 
 /* ---------- running a handler with its record captured in memory ---------- */
 
